@@ -4,6 +4,7 @@ package main
 
 import (
 	"fmt"
+	"go/constant"
 	"go/token"
 	"go/types"
 	"sort"
@@ -1424,12 +1425,43 @@ func (w *World) condConsumerD(g *ssa.Function, mc map[*ssa.Function]bool, depth 
 	}
 	// first If reached from entry through consumer-free blocks
 	b := g.Blocks[0]
+	var prev *ssa.BasicBlock
 	seen := map[*ssa.BasicBlock]bool{}
 	for {
 		if seen[b] {
 			return nil
 		}
 		seen[b] = true
+		// a test whose outcome is fixed on the way in (`for more := true; more && pred(c);`):
+		// the branch is no decision on first entry
+		if ifi := blockIf(b); ifi != nil && prev != nil {
+			if ph, ok := ifi.Cond.(*ssa.Phi); ok && ph.Block() == b {
+				taken := -1
+				for i, p := range b.Preds {
+					if p == prev {
+						if k, ok := ph.Edges[i].(*ssa.Const); ok && k.Value != nil && k.Value.Kind() == constant.Bool {
+							if constant.BoolVal(k.Value) {
+								taken = 0
+							} else {
+								taken = 1
+							}
+						}
+					}
+				}
+				onlyPhis := true
+				for _, in := range b.Instrs {
+					switch in.(type) {
+					case *ssa.Phi, *ssa.If, *ssa.DebugRef:
+					default:
+						onlyPhis = false
+					}
+				}
+				if taken >= 0 && onlyPhis {
+					prev, b = b, b.Succs[taken]
+					continue
+				}
+			}
+		}
 		for _, in := range b.Instrs {
 			if isCons(in) {
 				return nil // consumes unconditionally first: a must-consumer candidate, not conditional
@@ -1496,7 +1528,7 @@ func (w *World) condConsumerD(g *ssa.Function, mc map[*ssa.Function]bool, depth 
 		if len(b.Succs) != 1 {
 			return nil
 		}
-		b = b.Succs[0]
+		prev, b = b, b.Succs[0]
 	}
 }
 
